@@ -232,6 +232,37 @@ def r7_fifo_discipline(chk):
         r2.require(cfg, 2, "push_priority call sites")
 
 
+def r2_overflow_moved(chk):
+    r = chk.rule("R2", "a batch that does not fit is moved to the carry-over queue, never dropped", "T5 payload consumed (operation census)",
+                 "on the session's outgoing batch (Vec<FrameBatch>) the only removing operations are `drain(..)` whose result flows into extend() of the carry-over VecDeque, and clear() at the head of a round; truncate / pop / remove / retain would drop accepted messages")
+    for cfg, prog in chk.configs():
+        body = prog.body("sessionx::actor::SessionConnectionActorX::run_loop::{closure#0}")
+        if body is None:
+            r.bad(cfg, "anchor|run_loop", "-", "not found")
+            continue
+        for c in body.calls:
+            ty = arg_type(c)
+            if "Vec<message::FrameBatch>" not in ty or "VecDeque" in ty:
+                continue
+            key = "%s|%s on the outgoing batch#%d" % (short(body.path), c.name, len([x for x in r.instances if x["config"] == cfg and ("|%s on the outgoing batch" % c.name) in x["key"]]))
+            if c.name in ("truncate", "pop", "remove", "swap_remove", "retain", "split_off", "dedup", "drain_filter"):
+                r.bad(cfg, key, where(body, c.blk), "`%s` removes accepted messages from the outgoing batch without moving them anywhere: they are lost" % c.name)
+            elif c.name == "drain":
+                sink = [e for e in body.calls if e.name == "extend" and "VecDeque" in e.callee and "FrameBatch" in arg_type(e) and "Vec::drain(" in body.provenance(e.args[1]) and e.blk in body.reachable([c.blk])]
+                if sink:
+                    r.ok(cfg, key, where(body, c.blk), "drained tail moved into %s" % sink[0].recv())
+                else:
+                    r.bad(cfg, key, where(body, c.blk), "the drained overflow of the outgoing batch is not moved into the carry-over queue: messages beyond the byte limit are dropped")
+            elif c.name == "clear":
+                # only at the head of a round: nothing was pushed since the previous framing
+                pushes_before = [p_ for p_ in body.calls if p_.name == "push" and "Vec<message::FrameBatch>" in arg_type(p_) and body.dominates(p_.blk, c.blk)]
+                if pushes_before:
+                    r.bad(cfg, key, where(body, c.blk), "clear() of the outgoing batch after messages were pushed into it in the same round")
+                else:
+                    r.ok(cfg, key, where(body, c.blk), "clear() at the head of a round")
+        r.require(cfg, 4, "removing operations on the outgoing batch (2 drain + 2 clear)")
+
+
 def r8_dealer_direct_send(chk):
     r = chk.rule("R8", "a send does not bypass messages already queued by earlier sends", "T3 guarded-by (sibling contradiction)",
                  "DEALER: routing a new message straight to a peer while older messages wait in the pending queue reorders them")
@@ -259,6 +290,7 @@ def run(chk):
         "exactly-once / in-order / byte-identical delivery over all workloads, HWMs, batch options, transports and runtimes (runtime schedules and values)",
     ]
     r1_no_overtaking(chk)
+    r2_overflow_moved(chk)
     r3_drainer_drains(chk)
     r4_ingress_pop_after_completion(chk)
     r5_priority_at_boundary(chk)
